@@ -4,13 +4,13 @@ CONSTANTS
   CapC = 40
   Eps = 2
   Heights = {4, 5, 7, 8}
-  ForkH = 8
-  LimitH = 5
+  ForkH = 5
+  LimitH = 8
   Lim0 = 3
   Lim1 = 4
   Ns = {1, 2, 3, 4}
   Classes = {"s", "h", "n", "o"}
-  MaxBig = 1
+  MaxBig = 2
   MaxBl = 1
   MaxEx = 0
   MaxGrp = 2
